@@ -43,9 +43,26 @@ pub fn gen_sets(cfg: &RunCfg) -> Vec<Vec<M>> {
                 if let Some(t) = cands.first().cloned() {
                     if !mods[j].imports.iter().any(|(p, _)| p == &mods[i].name) {
                         let prov = mods[i].name.clone();
-                        mods[j].imports.push((prov.clone(), vec![t.clone()]));
-                        let name = format!("UseQ{set}x{j}e");
-                        mods[j].defs.push(D { text: format!("{name} ::= SEQUENCE {{ q {prov}.{t} }}"), name, kind: Kind::Type, shape: "UseQ".into(), refs: vec![t], fault: None });
+                        // with and without an IMPORTS clause for the symbol: a qualified reference needs none
+                        if rng.chance(1, 2) {
+                            mods[j].imports.push((prov.clone(), vec![t.clone()]));
+                        }
+                        // in every position a type reference can stand in
+                        let forms = [
+                            format!("SEQUENCE {{ q {prov}.{t} }}"),
+                            format!("SEQUENCE OF {prov}.{t}"),
+                            format!("SET OF {prov}.{t}"),
+                            format!("CHOICE {{ q {prov}.{t}, d NULL }}"),
+                            format!("{prov}.{t}"),
+                            format!("SEQUENCE {{ q SEQUENCE OF {prov}.{t}, o {prov}.{t} OPTIONAL }}"),
+                            format!("SET {{ q [0] {prov}.{t}, o [1] SET OF {prov}.{t} }}"),
+                        ];
+                        for (fi, form) in forms.iter().enumerate() {
+                            if fi == 0 || rng.chance(1, 2) {
+                                let name = format!("UseQ{set}x{j}f{fi}e");
+                                mods[j].defs.push(D { text: format!("{name} ::= {form}"), name, kind: Kind::Type, shape: "UseQ".into(), refs: vec![t.clone()], fault: None });
+                            }
+                        }
                     }
                 }
             }
@@ -63,6 +80,12 @@ fn closure(mods: &[M], root: usize) -> BTreeSet<usize> {
         if set.insert(i) {
             for (p, _) in &mods[i].imports {
                 if let Some(k) = mods.iter().position(|m| &m.name == p) {
+                    todo.push(k);
+                }
+            }
+            // providers of module-qualified references (no IMPORTS clause needed for those)
+            for d in mods[i].defs.iter().filter(|d| d.shape == "UseQ") {
+                if let Some(k) = mods.iter().position(|m| d.text.contains(&format!(" {}.{}", m.name, d.refs[0]))) {
                     todo.push(k);
                 }
             }
@@ -89,6 +112,13 @@ fn expected_uses(mods: &[M], j: usize) -> BTreeMap<String, BTreeSet<String>> {
             let rust = if s.starts_with(|c: char| c.is_lowercase()) { s.to_uppercase().replace('-', "") } else { s.replace('-', "") };
             e.insert(rust);
         }
+        // a symbol spelled in capitals and hyphens only is taken for an information object class (which has no item
+        // of its own in the bindings): the whole clause is then imported as `*` (Gen/Imports.classLike; the same
+        // module, nothing leaks) — by design, not judged
+        if syms.iter().any(|s| s.chars().all(|c| c.is_uppercase() || c == '-')) {
+            e.clear();
+            e.insert("*".into());
+        }
     }
     // types associated with imported values (validator/mod.rs fill_in_associated_type_imports)
     for (_, syms) in &m.imports {
@@ -98,7 +128,10 @@ fn expected_uses(mods: &[M], j: usize) -> BTreeMap<String, BTreeSet<String>> {
                     if let Some(t) = d.refs.first() {
                         if let Some((q, td)) = find(t) {
                             if q != j && td.kind == Kind::Type && !imported.contains(t) {
-                                out.entry(norm_mod(&mods[q].name)).or_default().insert(t.replace('-', ""));
+                                let e = out.entry(norm_mod(&mods[q].name)).or_default();
+                                if !e.contains("*") {
+                                    e.insert(t.replace('-', ""));
+                                }
                             }
                         }
                     }
@@ -135,7 +168,7 @@ fn observed_uses(items: &[(String, String)]) -> BTreeMap<String, BTreeSet<String
 pub fn run(cfg: &RunCfg) -> Report {
     let mut rep = Report::new(
         "C12",
-        "sets of 2..5 generated modules whose tagging default (none / EXPLICIT / IMPLICIT / AUTOMATIC) and EXTENSIBILITY IMPLIED differ in every combination, with a random (possibly cyclic) import graph: imported types used as components / list elements, imported values in constraints and DEFAULTs, values whose governing type is not imported, module-qualified references, type names made of capitals, digits and hyphens. Each module's `pub mod` block from the full compilation is compared with the block from compiling only the module and the transitive closure of its providers, and from random sub-sets / orders containing that closure. Oracle: blocks identical; witness SEQUENCE / CHOICE in each module carry exactly their own module's defaults; the use lines name exactly the imported symbols (plus the governing types of imported values) of the sibling module. Model tie: backend state per emitted definition equals the skeleton's",
+        "sets of 2..5 generated modules whose tagging default (none / EXPLICIT / IMPLICIT / AUTOMATIC) and EXTENSIBILITY IMPLIED differ in every combination, with a random (possibly cyclic) import graph: imported types used as components / list elements, imported values in constraints and DEFAULTs, values whose governing type is not imported, module-qualified references (with and without an IMPORTS clause; as component, list element, CHOICE alternative, alias, nested list element), type names made of capitals, digits and hyphens. Each module's `pub mod` block from the full compilation is compared with the block from compiling only the module and the transitive closure of its providers, and from random sub-sets / orders containing that closure. Oracle: blocks identical; witness SEQUENCE / CHOICE in each module carry exactly their own module's defaults; the use lines name exactly the imported symbols (plus the governing types of imported values) of the sibling module. Model tie: backend state per emitted definition equals the skeleton's",
     );
     let sets: Vec<Vec<M>> = if let Some(r) = &cfg.replay {
         let r = r.get("case").unwrap_or(r);
@@ -216,11 +249,38 @@ pub fn run(cfg: &RunCfg) -> Report {
             for d in m.defs.iter().filter(|d| d.shape == "UseQ") {
                 if let Some((_, text)) = fb.iter().find(|(id, _)| id == &d.rust_name()) {
                     let squeezed: String = text.chars().filter(|c| !c.is_whitespace()).collect();
-                    let prov = m.imports.iter().find(|(_, s)| s.contains(&d.refs[0])).map(|(p, _)| norm_mod(p)).unwrap_or_default();
-                    let ok = squeezed.split("pubq:").nth(1).map(|r| {
-                        let ty: String = r.chars().take_while(|c| *c != ',' && *c != '}').collect();
-                        ty.starts_with("super::") && norm_mod(ty.trim_start_matches("super::").split("::").next().unwrap_or("")) == prov && ty.replace('_', "").ends_with(&d.refs[0].replace('-', ""))
-                    });
+                    let prov = mods.iter().find(|pm| d.text.contains(&format!(" {}.{}", pm.name, d.refs[0]))).map(|pm| norm_mod(&pm.name)).unwrap_or_default();
+                    let imported = m.imports.iter().any(|(p, s)| norm_mod(p) == prov && s.contains(&d.refs[0]));
+                    // every mention of the referenced type inside the item: qualified with the provider's module
+                    // (a bare name is the same thing only if the module has a use line for it)
+                    let tname = D { name: d.refs[0].clone(), kind: Kind::Type, shape: "Int".into(), text: String::new(), refs: vec![], fault: None }.rust_name();
+                    let body = squeezed.split("implUseQ").next().unwrap_or(&squeezed).to_string();
+                    let mut mentions = 0;
+                    let mut bad = 0;
+                    let bytes: Vec<char> = body.chars().collect();
+                    let pat: Vec<char> = tname.chars().collect();
+                    let mut at = 0;
+                    while at + pat.len() <= bytes.len() {
+                        if bytes[at..at + pat.len()] == pat[..]
+                            && !(at > 0 && (bytes[at - 1].is_alphanumeric() || bytes[at - 1] == '_'))
+                            && !(at + pat.len() < bytes.len() && (bytes[at + pat.len()].is_alphanumeric() || bytes[at + pat.len()] == '_'))
+                        {
+                            mentions += 1;
+                            let before: String = bytes[..at].iter().collect();
+                            let qualified = before.ends_with("::") && {
+                                let path = before.trim_end_matches("::");
+                                let seg: String = path.chars().rev().take_while(|c| c.is_alphanumeric() || *c == '_').collect::<String>().chars().rev().collect();
+                                norm_mod(&seg) == prov && path.trim_end_matches(seg.as_str()).ends_with("super::")
+                            };
+                            if !(qualified || imported) {
+                                bad += 1;
+                            }
+                            at += pat.len();
+                        } else {
+                            at += 1;
+                        }
+                    }
+                    let ok = Some(mentions > 0 && bad == 0);
                     rep.count("qualified-reference");
                     if ok != Some(true) {
                         rep.unsat("", false, json!({"why": format!("module {}: `{}` should refer to super::<{}>::{}: {}", m.name, d.text, prov, d.refs[0], text), "case": case()}));
